@@ -701,6 +701,7 @@ int vorbis_synthesis_restart(vorbis_dsp_state *v){
   v->sequence=-1;
   v->eofflag=0;
   ((private_state *)(v->backend_state))->sample_count=-1;
+  ((private_state *)(v->backend_state))->lapout_solid=0;
 
   return(0);
 }
@@ -748,6 +749,8 @@ int vorbis_synthesis_blockin(vorbis_dsp_state *v,vorbis_block *vb){
 
     int thisCenter;
     int prevCenter;
+
+    b->lapout_solid=0; /* buffer layout is rewritten below */
 
     v->glue_bits+=vb->glue_bits;
     v->time_bits+=vb->time_bits;
@@ -1000,7 +1003,11 @@ int vorbis_synthesis_lapout(vorbis_dsp_state *v,float ***pcm){
   }
 
   /* solidify buffer into contiguous space */
-  if(v->pcm_current>=n1){
+  if(((private_state *)(v->backend_state))->lapout_solid){
+    /* already done by an earlier lapout on this same block; moving the
+       data a second time would push pcm_returned past the lap region
+       (and the count returned below negative) */
+  }else if(v->pcm_current>=n1){
     /* returned data already ends at the center of the current block;
        this is the state after a (re)start when only the priming block
        has been decoded.  There is nothing to move, and lW does not
@@ -1028,6 +1035,8 @@ int vorbis_synthesis_lapout(vorbis_dsp_state *v,float ***pcm){
       v->pcm_current+=n1-n0;
     }
   }
+
+  ((private_state *)(v->backend_state))->lapout_solid=1;
 
   if(pcm){
     int i;
